@@ -27,16 +27,21 @@ theorem shape_publication : Generated.CallerShape.setCallingProcess = pubShape :
 /-- `calling_process()`: lock; wait in a loop while Pending; hand out the guard. -/
 theorem shape_query : Generated.CallerShape.query = queryShape := by decide
 
-/-- Initial statics (`Pending`, `CALLER_GUESSED`), `GUESSED < KNOWN` (the test is `<=`),
-and in `main.rs` the publication precedes everything that can query. -/
+/-- Initial statics (`Pending`, `CALLER_GUESSED`) and `GUESSED < KNOWN` (the test is `<=`). -/
 theorem shape_initial :
     Generated.CallerShape.initialCell = "Pending" ∧
     Generated.CallerShape.initialSource = "CALLER_GUESSED" ∧
     Generated.CallerShape.callerGuessed < Generated.CallerShape.callerKnown ∧
-    Generated.CallerShape.mainOrder =
-      ["start_thread", "set_calling_process", "config_and_input_processing"] ∧
     (init ⟨0, none, 0⟩).cell = Cell.pending ∧ (init ⟨0, none, 0⟩).src = Src.guessed := by
   decide
+
+/-- Start-up order across `main.rs` when delta launches the command itself: the thread is
+started in `main`; in `run_app` the publication (`set_calling_process`) precedes every call
+that can query (`Config::from`, whose `is_word_diff` query is cached for the whole process,
+`show_config`, `delta`). This is the order of the model's main thread (publication first, then
+all queries). -/
+theorem startup_publication_precedes_first_query :
+    Generated.CallerShape.startupSubcommand = startupShape := by decide
 
 /-! ### The property -/
 
@@ -58,6 +63,17 @@ theorem guess_otherwise (cfg : Cfg) (hk : cfg.known = none) (cs : List Choice) (
     (h : run cfg (init cfg) cs = some s) : ∀ r ∈ s.results, r = Cell.val cfg.guess := by
   intro r hr
   exact ((inv_run (inv_init cfg) h).results r hr).2.2 hk
+
+/-- `known_wins` for the whole start-up sequence of subcommand mode (`delta git …`,
+`delta rg …`): the main thread's program as extracted from `main.rs` is the model's
+(publication before the first query), and in that program every query — from the one made while
+the configuration is built to the last one of input processing — is answered with the launched
+command, under every schedule. -/
+theorem startup_known_wins (cfg : Cfg) (k : Nat) (hk : cfg.known = some k) (cs : List Choice)
+    (s : State) (h : run cfg (init cfg) cs = some s) :
+    Generated.CallerShape.startupSubcommand = startupShape ∧
+    (init cfg).mpc = MPc.pubLock ∧ ∀ r ∈ s.results, r = Cell.val k :=
+  ⟨startup_publication_precedes_first_query, by simp [init, hk], known_wins cfg k hk cs s h⟩
 
 /-- No deadlock: in every reachable state in which some thread has not finished, a step
 other than a spurious wake-up is enabled (so progress never depends on spurious wake-ups;
@@ -187,5 +203,16 @@ return `Pending` — `query_never_pending` fails. -/
 theorem if_wait_returns_pending :
     ∃ cs s, runIf cfgGuess (init cfgGuess) cs = some s ∧ Cell.pending ∈ s.results :=
   ⟨[main, main, main, spurious, main, main], _, rfl, by decide⟩
+
+open Choice in
+/-- Variant with the publication moved behind the first query (`set_calling_process` after
+`Config::from`): the first query waits for the background guess and returns it although delta
+launched the command itself — `known_wins` fails for the start-up sequence. -/
+theorem late_publication_violates_known_wins :
+    ∃ cs s, runLatePub cfgKnown (initLatePub cfgKnown) cs = some s ∧
+      ∃ r ∈ s.results, r ≠ Cell.val 2 :=
+  ⟨[main, main, main, bg, bg, bg, bg, bg, bg, main, main, main, main,
+    main, main, main, main, main, main, main, main, main],
+    _, rfl, Cell.val 1, by decide, by decide⟩
 
 end C20
